@@ -259,6 +259,16 @@ func tokAfterglow(e Ev, kind string, bits int, input string) {
 		if now := tokRender(withOpts); now != thenOpts {
 			bad("token list under options after the same tokenizer ran again", thenOpts, now)
 		}
+		// the entry points that return strings give the values of the tokens the other entry points return
+		vals := make([]string, len(base))
+		for i, tk := range base {
+			vals[i] = tk.Value()
+		}
+		ts := newTokenizer(kind)
+		setOpts(ts, 0)
+		if s1, s2 := ts.TokenizeBufferToStrings(input), ts.TokenizeStreamToStrings(sio.NewStringScanner(input)); fmt.Sprint(s1) != fmt.Sprint(vals) || fmt.Sprint(s2) != fmt.Sprint(vals) {
+			bad("values returned by TokenizeBufferToStrings / TokenizeStreamToStrings (then: values of the tokens)", fmt.Sprint(vals), fmt.Sprint(s1)+" / "+fmt.Sprint(s2))
+		}
 		hold("token list and tokenizer of the previous case ("+kind+")", func() string { return tokRender(base) + tokRender(tb.TokenizeBuffer(input)) })
 	})
 }
